@@ -5,7 +5,7 @@ import sys
 import time
 
 VERIF = os.path.dirname(os.path.dirname(os.path.abspath(__file__)))
-EVIDENCE_DIR = os.path.join(VERIF, "evidence")
+EVIDENCE_DIR = os.environ.get("VERIF_EVIDENCE_DIR") or os.path.join(VERIF, "evidence")   # the override is used by selftest/run.py only
 KNOWN = os.path.join(VERIF, "known_findings.json")
 
 TRUSTED_BASE = [
@@ -92,6 +92,7 @@ class Report:
     # -- finishing
     def finish(self, extra_cov=None):
         known, fixed = load_known()
+        os.makedirs(EVIDENCE_DIR, exist_ok=True)
         wall = time.time() - self.t0
         by_rule = {}
         for o in self.obs:
